@@ -444,6 +444,7 @@ func (s *vSched) Run() {
 		}
 	}()
 	steps := 0
+	settle, settling := 0, false
 	for {
 		// wait until nobody runs
 		deadline := time.After(10 * time.Second)
@@ -456,9 +457,10 @@ func (s *vSched) Run() {
 				return
 			}
 		}
-		if s.projFn != nil && steps > 0 {
+		if s.projFn != nil && steps > 0 && !settling {
 			s.projLog = append(s.projLog, s.projFn())
 		}
+		settling = false
 		var cs []vChoice
 		allDone := true
 		var parked []*vActor
@@ -481,6 +483,17 @@ func (s *vSched) Run() {
 			if e.left > 0 && e.enabled() {
 				cs = append(cs, vChoice{name: e.name, env: e})
 			}
+		}
+		if len(cs) == 0 && !allDone && settle < 40 {
+			// nothing can move, yet somebody is still blocked: what they wait for may be on its way through the kernel
+			// (loopback delivery and epoll readiness are not synchronous under load) - look again a little later
+			settle++
+			settling = true
+			time.Sleep(time.Duration(settle) * 200 * time.Microsecond)
+			continue
+		}
+		if len(cs) > 0 {
+			settle = 0
 		}
 		if len(cs) == 0 {
 			if !allDone {
